@@ -32,6 +32,10 @@ def types(dim, ph):
         return [([x + ph, y], r, a) for x in (0.5, 2.2) for y in (0.5, 2.2) for (r, a) in ((1.0, [0.5, 0.5]), (1.05, [0.0, 0.0]), (0.7, [0.0, -0.9]))]
     if dim == "2x":  # strongly disparate radii: a tiny droplet between two big overlapping ones
         return [([x + ph, y], r) for x in (0.5, 2.2, 4.1) for y in (0.5, 2.2, 4.1) for r in (0.01, 2.0)]
+    if dim == "1o":  # the 1-d lattice far away from the coordinate origin: |position| / separation ~ 1e8
+        return [([FAR + p + ph], r) for p in (0.5, 1.5, 2.75, 4.0, 5.25) for r in (0.375, 0.75, 1.25)]
+    if dim == "2o":
+        return [([FAR + x + ph, -FAR + y], r) for x in (0.5, 2.25, 4.0) for y in (0.5, 2.25, 4.0) for r in (0.375, 1.0)]
     if dim == 1:
         return [([p + ph], r) for p in (0.4, 1.5, 2.7, 3.9, 5.2) for r in (0.4, 0.7, 1.2)]
     if dim == 2:
@@ -39,7 +43,14 @@ def types(dim, ph):
     return [([x + ph, y, z], r) for x in (0.6, 2.9) for y in (0.6, 2.9) for z in (0.6, 2.9) for r in (0.5, 1.3)]
 
 
+FAR = 2.0**27  # 1.3e8, exactly representable; lattice offsets below are dyadic, so every position is exact
+
+
 def metrics(dim):
+    if dim in ("1o", "2o"):
+        n = 1 if dim == "1o" else 2
+        org = [FAR, -FAR][:n]
+        return [None, {"kind": "cart", "shape": [6, 7][:n], "dx": [1.0] * n, "origin": org, "periodic": [True] * n}]
     # non-cubic boxes: every axis has its own period, so a mix-up of per-axis lengths changes minimal-image distances
     shape = {1: [6], 2: [5, 7], 3: [4, 5, 6], "2x": [5, 7], "2p": [5, 7]}[dim]
     out = [None]
@@ -53,7 +64,7 @@ def metrics(dim):
 def blocks(tier, seed):
     ph = [0.0, 0.05, 0.11][seed % 3]
     out = []
-    for dim in (1, 2, 3, "2x", "2p"):
+    for dim in (1, 2, 3, "2x", "2p", "1o", "2o"):
         nmax = 4 if (tier == "thorough" and dim == 1) else 3
         for gi, g in enumerate(metrics(dim)):
             for md in MIND:
